@@ -6,7 +6,7 @@ it is the ground truth for C14 (meaning independent of layout) and C20
 PUNCT = {"(", ")", "[", "]", ",", ";"}
 
 SEPS = [" ", "\t", "\n", "\r\n", "  ", "\n\n", " # c\n", "#\n", " # c\r\n",
-        " #'\"//\n"]
+        " #'\"//\n", "#c d\n"]
 LEADS = ["", "\n", "\n\n\n", "\r\n", "# c\n", "  "]
 TRAILS = ["", "\n", " ", " # c", " # c\n", "\r\n", "\n\n"]
 
@@ -264,3 +264,36 @@ def semicolon_variants(tokens):
         if t in ("end", "catch", "finally") and k > 0 and \
                 tokens[k - 1] not in (";", "do", "finally", "then", "else"):
             yield tokens[:k] + [";"] + tokens[k:]
+    # the semicolon after a class member is optional as well (the next
+    # member starts with the keyword def)
+    for k in class_member_starts(tokens):
+        if tokens[k - 1] == ";":
+            yield tokens[:k - 1] + tokens[k:]
+        else:
+            yield tokens[:k] + [";"] + tokens[k:]
+    ks = [k for k in class_member_starts(tokens) if tokens[k - 1] == ";"]
+    if len(ks) > 1:
+        yield [t for j, t in enumerate(tokens) if j + 1 not in ks]
+
+
+def class_member_starts(tokens):
+    """indices of the `def` tokens that start the 2nd, 3rd, ... member of a
+    `def class X do ... end` body (only do/end nest)"""
+    out = []
+    for i in range(len(tokens) - 3):
+        if tokens[i] == "def" and tokens[i + 1] == "class" and \
+                tokens[i + 3] == "do":
+            depth, first = 1, True
+            for k in range(i + 4, len(tokens)):
+                t = tokens[k]
+                if t == "do":
+                    depth += 1
+                elif t == "end":
+                    depth -= 1
+                    if depth == 0:
+                        break
+                elif t == "def" and depth == 1:
+                    if not first:
+                        out.append(k)
+                    first = False
+    return out
